@@ -58,16 +58,17 @@ Count == /\ c = <<0, 0>>
          /\ act' = [n |-> "Count"]
          /\ err' = ""
 
+BadPosAny == n = 0 /\ c = <<0, 0>> /\ \E r \in 1..N : \E p \in {0, NumInRing(r) + 1} : BadPos(r, p)
 Next == \/ \E d \in 1..6 : Step(d)
         \/ Advance
-        \/ \E r \in 1..N : \E p \in {0, NumInRing(r) + 1} : BadPos(r, p)
+        \/ BadPosAny
         \/ Count
 
 Bound == TLCGet("level") <= MaxLevel
 View  == vars
 
 (* ------------------------------------------------ invariants ------------------------------------------------ *)
-TypeOK == o \in Orients /\ c \in Cells(N) /\ n \in 0..MaxCount /\ (n > 0 => c = <<0, 0>>)
+TypeOK == o \in Orients /\ Ring(c) <= N /\ n \in 0..MaxCount /\ (n > 0 => c = <<0, 0>>)
 AtCell == n = 0
 RingIsDistancePlusOne == AtCell => ThmRingIsGraphDistance(c)
 RingPosInverse        == AtCell => ThmRingPosInverse(c)
@@ -80,6 +81,7 @@ AtRingStart == AtCell /\ o = "flats" /\ c = RingStart(Ring(c))
 RingContiguous        == AtRingStart => ThmRingContiguous(Ring(c)) /\ ThmCounts(Ring(c))
 \* whole-lattice laws are evaluated once: in the initial state
 AtOrigin == AtCell /\ o = "flats" /\ c = <<0, 0>>
+NeighbourListIsGeometric == AtOrigin => ThmNbVecIsGeometric
 LabelsInjective       == AtOrigin => ThmLabelsInjective(N)
 RingPosBijection      == AtOrigin => ThmRingPosBijection(N)
 \* counting
@@ -90,7 +92,9 @@ RefusalsChangeNothing == [][err' # "" => UNCHANGED vars]_<<vars, act, err>>
 (* ------------------------------------------------ observation ------------------------------------------------ *)
 Dbl(oo, cc, s) == <<2 * XY(oo, cc)[1] + s * XY(oo, <<1, 1>>)[1], 2 * XY(oo, cc)[2] + s * XY(oo, <<1, 1>>)[2]>>
 CellObs == LET rp == RingPosIn(o, c) IN
-    [ring   |-> rp[1],
+    [c      |-> c,                              \* what every route back to indices must give
+     loc    |-> <<c[1], c[2], KAx>>,            \* the locator object grid[i, j, k]
+     ring   |-> rp[1],
      pos    |-> rp[2],
      inring |-> NumInRing(rp[1]),
      upto   |-> TotalUpTo(rp[1]),
